@@ -435,7 +435,9 @@ func reifyValue(
 
 	if baseType.Kind() == reflect.Struct {
 		sub, err := val.toConfig(opts.opts)
-		if err != nil {
+		if err != nil || baseType == tRegexp {
+			// regexp.Regexp is unpacked from a string only; an object or list
+			// must not be taken for its (unexported) fields
 			return reifyPrimitive(opts, val, t, baseType)
 		}
 
@@ -549,7 +551,7 @@ func reifyMergeValue(
 
 	case reflect.Struct:
 		sub, err := val.toConfig(opts.opts)
-		if err != nil {
+		if err != nil || baseType == tRegexp {
 			// struct types unpacked from primitive values (e.g. regexp.Regexp),
 			// like in reifyValue
 			return reifyPrimitive(opts, val, t, baseType)
